@@ -17,7 +17,7 @@ def main():
     # contracts this check's toy layer uses for routines named in the property's own file list: re-decided here (see common.include_dependency)
     from .common import include_dependency
     if not only or 'dep' in only:
-        include_dependency(chk, tasks, 'C04', '', 'BIP-340 verification computes -e*P with the variable-time GLV multiply (toy layer: contract)')
+        include_dependency(chk, tasks, 'C04', 'consts mulg split bound table lookup ladder', 'BIP-340 verification computes -e*P with the variable-time GLV multiply (toy layer: contract)')
         include_dependency(chk, tasks, 'C05', 'table lookup basemult', 'BIP-340 verification computes s*G with scalarBaseMultVartime (toy layer: contract)')
         include_dependency(chk, tasks, 'C16', 'dsm', 'BIP-340 verification calls DoubleScalarMultBasepointVartime (toy layer: contract)')
     from .common import include_ring_dependency
